@@ -291,14 +291,18 @@ func Harness_C10_epoch_lemmas() {
 }
 
 func Harness_C10_epoch() {
-	// three registered nodes: two consensus seats (K = 2) and one candidate
-	keys := []string{"aa", "bb", "cc"}
+	// `peers` registered nodes: two consensus seats (K = 2), the rest candidates
+	keys := []string{"aa", "bb", "cc", "dd", "ee"}[:param("peers")]
 	c10Pool = &PeerPoolMap{PeerPoolMap: map[string]*PeerPoolItem{}}
 	for i, k := range keys {
 		it := &PeerPoolItem{Index: uint32(i + 1), PeerPubkey: k, Address: common.Address{byte(i + 1)}, Status: ConsensusStatus,
 			InitPos: nondetU64("initPos"), TotalPos: nondetU64("totalPos")}
+		if param("concrete_stakes") == 1 {
+			// wide variant: stakes from a small table (the shares are then linear in the symbolic income)
+			it.InitPos, it.TotalPos = uint64(len(keys)-i)*1000000, 0
+		}
 		assume(it.InitPos >= 1 && it.InitPos <= 1<<30 && it.TotalPos <= 1<<30)
-		if nondetBool("candidate") {
+		if i >= 2 {
 			it.Status = CandidateStatus
 		}
 		c10Pool.PeerPoolMap[k] = it
@@ -307,13 +311,16 @@ func Harness_C10_epoch() {
 	assume(c10Balance <= 1<<60 && c10SplitFee <= c10Balance)
 	c10GP = &GlobalParam{A: uint32(nondetU8("A")), B: uint32(nondetU8("B")), Yita: 5}
 	assume(c10GP.A+c10GP.B == 100) // updateGlobalParam enforces A + B == 100
-	c10GP2 = &GlobalParam2{DappFee: uint32(nondetU8("dappFee")), CandidateFeeSplitNum: uint32(nondetRange("splitnum", 4))}
+	c10GP2 = &GlobalParam2{DappFee: uint32(nondetU8("dappFee")), CandidateFeeSplitNum: uint32(nondetRange("splitnum", param("peers")+1))}
 	assume(c10GP2.DappFee <= 100) // updateGlobalParam2 enforces the range
 	c10Gas = &GasAddress{}
 	if nondetBool("gas-address-set") {
 		c10Gas.Address = common.Address{0x77}
 	}
 	c10CurveVals = []uint64{nondetU64("s1"), nondetU64("s2")}
+	if param("concrete_stakes") == 1 {
+		c10CurveVals = []uint64{uint64(1 + nondetRange("s1.choice", 2)), 2}
+	}
 	assume(c10CurveVals[0] <= 1<<40 && c10CurveVals[1] <= 1<<40)
 	c10CurveNo, c10DappPaid, c10NodePaid = 0, 0, nil
 	income := c10Balance - c10SplitFee
@@ -339,3 +346,7 @@ func Harness_C10_epoch() {
 	assert(splitSum == sum, "reported-split-sum-is-the-sum-of-node-amounts")
 	assert(bigLe(total, new(big.Int).SetUint64(income)), "dapp-and-node-amounts-within-the-income")
 }
+
+// Harness_C10_epoch_wide: more registered nodes than paid candidates (stakes and curve weights from small
+// tables, income and percentages symbolic) - the loop bounds of executeSplit2 against CandidateFeeSplitNum.
+func Harness_C10_epoch_wide() { Harness_C10_epoch() }
